@@ -246,6 +246,9 @@ impl Property for C18 {
             GasC::BalancePlusOne => BAL + 1,
         };
         let gas_ok = gas_amount > 0 && gas_amount <= BAL;
+        // a stated gas payment of exactly 0 is not decided by the statement (today the gas service refuses it);
+        // if it is accepted everything else must still hold
+        let zero_gas_undecided = gas_amount == 0 && registered && dest_trusted && representable && case.authorised;
         let expect_ok = registered && dest_trusted && representable && case.authorised && gas_ok;
         cx.nontrivial();
         cx.label(&format!("{:?}", case.tok).split('(').next().unwrap().to_string());
@@ -280,7 +283,14 @@ impl Property for C18 {
             w.its.client.try_deploy_remote_interchain_token(&caller, &BytesN::from_array(env, &salt), &sstr(env, dest_name), &gas_token)
         };
         let ok = matches!(r, Ok(Ok(_)));
-        if !expect_ok {
+        if zero_gas_undecided {
+            cx.count("either");
+        }
+        if !expect_ok && !(zero_gas_undecided && ok) {
+            if zero_gas_undecided {
+                ensure_p!(snapshot(env) == snap0 && events_len(env) == ev0, "refused remote deployment changed state");
+                return Ok(());
+            }
             cx.count("must_fail");
             ensure_p!(
                 !ok,
@@ -296,7 +306,9 @@ impl Property for C18 {
             ensure_p!(events_len(env) == ev0, "refused remote deployment emitted events");
             return Ok(());
         }
-        cx.count("must_succeed");
+        if !zero_gas_undecided {
+            cx.count("must_succeed");
+        }
         ensure_p!(ok, "remote deployment of a registered token toward a trusted chain with paid gas was refused: {:?}", r);
         let rid = r.unwrap().unwrap().to_array();
         let want_id = if canonical_entry {
@@ -335,7 +347,7 @@ impl Property for C18 {
         // gas payment event
         let paid: Vec<_> = evs.iter().filter(|e| e.0 == w.gas.id).collect();
         ensure_p!(
-            paid.iter().any(|e| e.1.contains(&scv(env, BytesN::from_array(env, &keccak256(&payload)))) && e.1.contains(&scv(env, caller.clone())) && e.1.contains(&scv(env, gas_token.clone()))),
+            gas_amount == 0 || paid.iter().any(|e| e.1.contains(&scv(env, BytesN::from_array(env, &keccak256(&payload)))) && e.1.contains(&scv(env, caller.clone())) && e.1.contains(&scv(env, gas_token.clone()))),
             "no gas payment event carries keccak(payload), payer and the stated gas token/amount: {:?}",
             paid
         );
